@@ -19,7 +19,7 @@ import time
 from fractions import Fraction
 
 from sim import core
-from sim.threads import Scheduler, SimCancel, StepLimit
+from sim.threads import Scheduler, SimCancel, StepLimit, pack_schedule
 from sim import values as V
 from sim.engine_fault import make_exact_engine
 
@@ -936,7 +936,7 @@ def minimise(v: dict) -> dict:
     kind, out = simulate(cur)
     if kind == 'ok':
         segs = [s for s in out['segments']]
-        explicit = dict(cur, schedule=segs)
+        explicit = dict(cur, schedule=pack_schedule(segs))
         if _fails_same(explicit, cls, fn):
             def coarsen(segs):
                 merged = []
@@ -955,13 +955,13 @@ def minimise(v: dict) -> dict:
 
             def test(keep_idx):
                 s2 = coarsen([segs[k] for k in keep_idx])
-                return _fails_same(dict(cur, schedule=s2), cls, fn)
+                return _fails_same(dict(cur, schedule=pack_schedule(s2)), cls, fn)
             if len(idx) > 1:
                 keep_idx = core.ddmin(idx, test, max_tests=80)
                 s2 = coarsen([segs[k] for k in keep_idx])
-                if _fails_same(dict(cur, schedule=s2), cls, fn):
+                if _fails_same(dict(cur, schedule=pack_schedule(s2)), cls, fn):
                     segs = s2
-            cur = dict(cur, schedule=segs)
+            cur = dict(cur, schedule=pack_schedule(segs), schedule_readable=segs[:200])
     kind, out = simulate(cur)
     vs = [x for x in judge(cur, out) if x['cls'] == cls and x['signature']['fn'] == fn] if kind == 'ok' else []
     if not vs:
